@@ -96,7 +96,138 @@ impl<T> Tx<T> {
     }
 }
 
+/// Outcome of a non-blocking / timed send that did not go through.
+pub enum NoSend<T> {
+    Full(T),
+    Disconnected(T),
+}
+/// Outcome of a non-blocking / timed receive that delivered nothing.
+pub enum NoRecv {
+    Empty,
+    Disconnected,
+}
+
+impl<T> Tx<T> {
+    fn send_now(&self, c: usize, v: T) -> Result<(), NoSend<T>> {
+        // 0 = accepted, 1 = full, 2 = disconnected
+        let r = with_inner(|i, me| {
+            let ch = &mut i.chans[c];
+            if ch.receivers == 0 {
+                2
+            } else if ch.cap.map_or(false, |cap| ch.len >= cap) {
+                1
+            } else {
+                ch.len += 1;
+                let l = ch.len;
+                let e = i.max_chan_len.entry(c).or_insert(0);
+                if l > *e {
+                    *e = l;
+                }
+                i.send_log.push((me, c));
+                0
+            }
+        })
+        .unwrap();
+        match r {
+            0 => {
+                self.sh.q.lock().unwrap().push_back(v);
+                Ok(())
+            }
+            1 => Err(NoSend::Full(v)),
+            _ => Err(NoSend::Disconnected(v)),
+        }
+    }
+    fn send_unmanaged_now(&self, v: T) -> Result<(), NoSend<T>> {
+        let mut q = self.sh.q.lock().unwrap();
+        if *self.sh.raw_receivers.lock().unwrap() == 0 {
+            return Err(NoSend::Disconnected(v));
+        }
+        if self.sh.cap.map_or(true, |c| q.len() < c) {
+            q.push_back(v);
+            self.sh.cv.notify_all();
+            return Ok(());
+        }
+        Err(NoSend::Full(v))
+    }
+    /// Non-blocking send: one atomic step.
+    pub fn try_send(&self, v: T) -> Result<(), NoSend<T>> {
+        match self.sh.id {
+            Some(c) if crate::core::current().is_some() => {
+                point(Op::TrySend(c));
+                self.send_now(c, v)
+            }
+            _ => self.send_unmanaged_now(v),
+        }
+    }
+    /// Send with a time limit: `Full` stands for the timeout (the timer landed before a receiver made room).
+    pub fn send_timeout(&self, v: T) -> Result<(), NoSend<T>> {
+        match self.sh.id {
+            Some(c) if crate::core::current().is_some() => {
+                point(Op::SendTimeout(c));
+                self.send_now(c, v)
+            }
+            _ => self.send(v).map_err(NoSend::Disconnected),
+        }
+    }
+    pub fn query(&self) -> (usize, Option<usize>) {
+        if let Some(c) = self.sh.id {
+            if crate::core::current().is_some() {
+                point(Op::Query(c));
+            }
+        }
+        (self.sh.q.lock().unwrap().len(), self.sh.cap)
+    }
+}
+
 impl<T> Rx<T> {
+    fn recv_now(&self, c: usize) -> Result<T, NoRecv> {
+        // 0 = value, 1 = empty, 2 = disconnected
+        let r = with_inner(|i, _| {
+            let ch = &mut i.chans[c];
+            if ch.len > 0 {
+                ch.len -= 1;
+                0
+            } else if ch.senders == 0 {
+                2
+            } else {
+                1
+            }
+        })
+        .unwrap();
+        match r {
+            0 => Ok(self.sh.q.lock().unwrap().pop_front().expect("queue and scheduler state agree")),
+            1 => Err(NoRecv::Empty),
+            _ => Err(NoRecv::Disconnected),
+        }
+    }
+    /// Receive with a time limit: `Empty` stands for the timeout (the timer landed before a sender acted).
+    pub fn recv_timeout(&self) -> Result<T, NoRecv> {
+        match self.sh.id {
+            Some(c) if crate::core::current().is_some() => {
+                point(Op::RecvTimeout(c));
+                self.recv_now(c)
+            }
+            _ => self.recv().ok_or(NoRecv::Disconnected),
+        }
+    }
+    /// Non-blocking receive as a scheduling point (for code under test; the harness itself uses `try_recv`).
+    pub fn try_recv_point(&self) -> Result<T, NoRecv> {
+        match self.sh.id {
+            Some(c) if crate::core::current().is_some() => {
+                point(Op::TryRecv(c));
+                self.recv_now(c)
+            }
+            _ => self.try_recv().map_err(|d| if d { NoRecv::Disconnected } else { NoRecv::Empty }),
+        }
+    }
+    pub fn query(&self) -> (usize, Option<usize>) {
+        if let Some(c) = self.sh.id {
+            if crate::core::current().is_some() {
+                point(Op::Query(c));
+            }
+        }
+        (self.sh.q.lock().unwrap().len(), self.sh.cap)
+    }
     /// Some(value) or None when the queue is empty and all senders are gone.
     pub fn recv(&self) -> Option<T> {
         match self.sh.id {
